@@ -41,6 +41,7 @@ struct CompileSpec {
 struct CompileResult { int errors = 0; int rc = 0; std::string messages; YR_RULES* rules = nullptr; };
 // yr_compiler_create + defines + add_string each + get_rules; destroys the compiler.
 CompileResult compile_rules(const CompileSpec& spec);
+extern uint8_t g_stack_junk;     // compile_rules() fills a stretch of stack below its API calls with this byte first (0 = off)
 YR_RULES* compile_simple(const std::string& src);    // aborts the process on failure (harness bug)
 
 // ---------------------------------------------------------------- streams ---
